@@ -256,7 +256,7 @@ class C19Check:
     def floors(self, tier):
         return scaled_floors("C19", ["C19.handshakes", "C19.probe_ok", "C19.stopped", "C19.cli_ok", "C19.started.tcp", "C19.started.unix", "C19.disconnect.abort",
                                      "C19.disconnect.eof", "C19.disconnect.close", "C19.stop_with_clients.1", "C19.connect_after_stop_refused",
-                                     "C19.probe_ok_while_parked"], tier, 18)
+                                     "C19.probe_ok_while_parked", "C19.handshake_while_other_pending"], tier, 18)
 
     def timeout(self, tier):
         return 900 if tier == "quick" else 7200
